@@ -11,7 +11,8 @@
 From Coq Require Import String.
 From Coq Require Import List Arith ZArith.
 Import ListNotations.
-From YP Require Import Base.Str Term.Term Unify.Unify Engine.Bounded Engine.BoundedQuery.
+From YP Require Import Base.Str Term.Term Term.Fast Unify.Unify Unify.UnifyGen Lang.Ast Comp.IR Comp.CompileClause Sem.Machine Sem.RunSem
+  Engine.GenMachine Engine.RunGen Engine.BoundedHeap Engine.Bounded Engine.BoundedQuery Engine.RunBoundedM Engine.BoundedMachine.
 
 (* "for a deeper or infinite search it returns a prefix of that sequence": the sequences at all depths
    are prefixes of each other, and a search that ends within depth n is the same at every deeper m *)
@@ -26,6 +27,35 @@ Theorem C17_sld_answers_prefix_monotone : forall (P : list clause) (fu : nat) (q
   n <= m -> res_le (sld_ans P fu q n) (sld_ans P fu q m).
 Proof. exact sld_ans_mono. Qed.
 Print Assumptions C17_sld_answers_prefix_monotone.
+
+(* ... and for the engine model of compiled programs (Sem/Machine.v): EVERY query against EVERY IR program, with the
+   builtins =, \=, call/N, once/1, findall/3, cut and if-then-else; n = nesting depth of YP.query calls, the
+   call raises at depth 0.  machine_ans = the query variables resolved at each answer + how the search ended. *)
+Theorem C17_machine_answers_prefix_monotone : forall (ir : ir_program) (name : str) (args : list term) (nq n m : nat),
+  n <= m -> res_le (machine_ans ir name args nq n) (machine_ans ir name args nq m).
+Proof. exact machine_ans_mono. Qed.
+Print Assumptions C17_machine_answers_prefix_monotone.
+
+(* the two result theorems below, instantiated with the machine's queries: no hypothesis on the query is left *)
+Theorem C17_machine_result_is_prefix : forall (ir : ir_program) (name : str) (args : list term) (nq : nat) (B : Type)
+  (proj : nat -> list term -> nat -> pout B * nat) budget cur st limit (res_ : list B),
+  gs st = Susp 0 ->
+  fst (evaluate_bounded (machine_ans ir name args nq) proj budget cur true st limit) = Return res_ -> running cur st ->
+  forall m, budget limit cur <= m ->
+  exists l0, prefix l0 (fst (machine_ans ir name args nq m)) /\ projected proj 0 l0 res_.
+Proof. exact machine_result_is_prefix. Qed.
+Print Assumptions C17_machine_result_is_prefix.
+
+Theorem C17_machine_complete_when_shallow : forall (ir : ir_program) (name : str) (args : list term) (nq : nat) (B : Type)
+  (proj : nat -> list term -> nat -> pout B * nat) budget cur st limit,
+  gs st = Susp 0 -> running cur st -> setrl cur limit = inr limit ->
+  snd (machine_ans ir name args nq (budget limit cur)) = Norm ->
+  (forall k a r, exists b, proj k a r = (PVal b, r)) ->
+  exists res_, fst (evaluate_bounded (machine_ans ir name args nq) proj budget cur true st limit) = Return res_ /\
+    forall m, budget limit cur <= m ->
+      projected proj 0 (fst (machine_ans ir name args nq m)) res_ /\ snd (machine_ans ir name args nq m) = Norm.
+Proof. exact machine_complete_when_shallow. Qed.
+Print Assumptions C17_machine_complete_when_shallow.
 
 (* whatever happens, a returned result is the projection, in order, of a prefix of the answers at every
    depth at least the one the limit corresponds to *)
@@ -78,14 +108,14 @@ Theorem C17_generator_closed_on_every_branch : forall (A B : Type) (ans : nat ->
 Proof. intros. apply generator_closed_on_every_branch; auto. Qed.
 Print Assumptions C17_generator_closed_on_every_branch.
 
-(* ... so "all query variables are unbound again", given the Restoring contract of generators (C03):
-   a finished generator holds no binding *)
-Theorem C17_vars_unbound_after : forall (A B : Type) (ans : nat -> res A)
-  (proj : nat -> A -> nat -> pout B * nat) budget cur (Hp : Type) (h0 : Hp) (holds : gstate -> Hp),
-  holds Done = h0 ->
-  forall st limit, running cur st ->
-  holds (gs (snd (evaluate_bounded ans proj budget cur true st limit))) = h0.
-Proof. intros. apply vars_unbound_after; auto. Qed.
+(* ... so "all query variables are unbound again".  On the generator-frame machine of C03 (frames over the heap of
+   Variable cells, leaves = engine.py's unification generators, d = recursion depth left by the limit): the for loop
+   resumes the query k times - it is left because the generator ended, because a RecursionError came up through its
+   frames, or because the projection function raised at the k-th answer - and the finally block closes what is left.
+   For every program, heap, fuel n, depth d and every k, the heap afterwards is the heap before the call. *)
+Theorem C17_vars_unbound_after : forall (E P : Type) (prog : P -> code (term * term) E P * E) n d k h c e h',
+  eb_final_heap prog n d k h c e = Some h' -> h' = h.
+Proof. exact eb_heap_restored. Qed.
 Print Assumptions C17_vars_unbound_after.
 
 (* the result is exactly what was collected: the except clauses drop nothing *)
@@ -129,4 +159,37 @@ Example C17_nonvacuous :
    evaluate_bounded (sld_ans nat_prog 50 nat_query) proj (fun l c => (l - c) / 10) 20 true
                     {| rl := 1000; gs := Susp 0 |} 15
    = (Return [], {| rl := 1000; gs := Done |})).
+Proof. vm_compute. repeat split. Qed.
+
+(* the same through the compiler and the engine model: the compiled nat/1 at call depth 3, and a search that
+   ends within depth 4 is the same at every larger depth *)
+Definition nat_src : program :=
+  [ {| c_name := d "nat"%string; c_args := [SAtom (d "z"%string)]; c_body := BTrue |};
+    {| c_name := d "nat"%string; c_args := [SFun (d "s"%string) [SVar (d "X"%string)]]; c_body := BCall (d "nat"%string) [SVar (d "X"%string)] |};
+    {| c_name := d "two"%string; c_args := [SVar (d "X"%string)];
+       c_body := BAnd (BCall (d "nat"%string) [SVar (d "X"%string)]) (BCall (d "="%string) [SVar (d "X"%string); SFun (d "s"%string) [SAtom (d "z"%string)]]) |};
+    {| c_name := d "first"%string; c_args := [SVar (d "X"%string)]; c_body := BCall (d "once"%string) [SFun (d "nat"%string) [SVar (d "X"%string)]] |} ].
+
+Example C17_machine_nonvacuous :
+  let z := TAtom (d "z"%string) in let s := fun t => TFun (d "s"%string) [t] in
+  match compile_program nat_src with
+  | Some ir =>
+      machine_ans ir (d "nat"%string) [TVar 0] 1 3 = ([[z]; [s z]; [s (s z)]], Err) /\
+      (* once(nat(X)) ends within depth 3 although nat/1 has infinitely many answers *)
+      machine_ans ir (d "first"%string) [TVar 0] 1 3 = ([[z]], Norm) /\
+      machine_ans ir (d "first"%string) [TVar 0] 1 2 = ([], Err) /\
+      (* nat(X), X = s(z): one answer, then the search goes on for ever *)
+      machine_ans ir (d "two"%string) [TVar 0] 1 6 = ([[s z]], Err) /\
+      evaluate_bounded (machine_ans ir (d "two"%string) [TVar 0] 1) (fun k a r => (PVal a, r)) (fun l c => (l - c) / 2) 20 true
+                       {| rl := 1000; gs := Susp 0 |} 32 = (Return [[s z]], {| rl := 1000; gs := Done |})
+  | None => False
+  end.
+Proof. vm_compute. repeat split. Qed.
+
+(* the heap theorem on the example of C03: a query abandoned after its first answer (the projection raised) and the
+   same query ended by an exception three frames down both leave the heap [(7, keep)] they started from *)
+Example C17_heap_nonvacuous :
+  eb_final_heap ex_prog2 100 10 1 [(7, A "keep")] (fst (ex_prog2 1)) tt = Some [(7, A "keep")] /\
+  eb_final_heap ex_prog2 100 10 2 [(7, A "keep")] (fst (ex_prog2 1)) tt = Some [(7, A "keep")] /\
+  eb_final_heap ex_prog2 100 1 1 [(7, A "keep")] (fst (ex_prog2 1)) tt = Some [(7, A "keep")].
 Proof. vm_compute. repeat split. Qed.
